@@ -54,6 +54,11 @@ func (p *muxPeer) onWrite(b []byte) {
 				p.nextVal++
 				v := p.nextVal
 				body := append(encRetStat(int32(v)).Bytes, encDone(tokDone, 0, 0, 0).Bytes...)
+				if p.rng.Intn(4) == 0 {
+					// the server confirms the packet size in force: handled by this channel's reader path while
+					// other goroutines send on other channels (they read the same connection setting)
+					body = append(encEnv([][3]string{{"\x04", "512", "512"}}).Bytes, body...)
+				}
 				p.tr.Emit(Ev{"ev": "PeerSend", "chan": ch, "val": v})
 				if p.split && p.rng.Intn(2) == 0 {
 					c := 1 + p.rng.Intn(len(body)-1)
